@@ -3575,7 +3575,7 @@ class FlowIR(object):
             except ValueError:
                 raise ValueError('Job reference invalid: %s' % reference)
 
-            stageRe = re.compile(r"stage([0-9]+)")
+            stageRe = re.compile(r"stage([0-9]+)$")
             # Check that the putative `stage` part of the reference is an actual stage reference
             match = stageRe.match(stage)
             if match is not None:
